@@ -233,6 +233,50 @@ func genC20(r *rand.Rand, thorough bool) *c20Input {
 		for i := 0; i < k+5; i += 1 + r.Intn(4) {
 			in.Ops = append(in.Ops, []string{"has", mk(i)})
 		}
+		if r.Intn(2) == 0 {
+			// later, smaller batches land below, inside and above the long stored run (every stored entry
+			// above the insertion point moves up by the size of the batch, less than the run's own length);
+			// every member is probed afterwards, and once more after a reopen
+			rounds := 1 + r.Intn(3)
+			extra := []string{}
+			for j := 0; j < rounds; j++ {
+				m := []int{1, 2, 3, 5, 17, 63, 64, 65, 130}[r.Intn(9)]
+				var f byte
+				switch r.Intn(3) {
+				case 0: // below the run: a smaller first byte when there is one, else smaller second bytes cannot exist, so inside
+					f = first / 2
+				case 1:
+					f = first
+				default:
+					f = first + (255-first)/2 + (255-first)%2
+				}
+				for q := 0; q < m; q++ {
+					h := make([]byte, 16)
+					h[0] = f
+					h[1] = byte(r.Intn(2))
+					h[2] = byte(r.Intn(256))
+					h[3] = byte(1 + r.Intn(255)) // differs from every mk(i), whose h[3] is 0
+					h[15] = byte(j)
+					extra = append(extra, hx(h))
+					in.Ops = append(in.Ops, []string{"add", hx(h)})
+				}
+				in.Ops = append(in.Ops, []string{"flush"})
+				if r.Intn(3) == 0 {
+					in.Ops = append(in.Ops, []string{"reopen"})
+				}
+			}
+			for pass := 0; pass < 2; pass++ {
+				for i := 0; i < k+2; i++ {
+					in.Ops = append(in.Ops, []string{"has", mk(i)})
+				}
+				for _, e := range extra {
+					in.Ops = append(in.Ops, []string{"has", e})
+				}
+				if pass == 0 {
+					in.Ops = append(in.Ops, []string{"reopen"})
+				}
+			}
+		}
 		return in
 	}
 	in := &c20Input{}
